@@ -198,6 +198,7 @@ def table():
         W("MetadorGroup.values", ("C08", "C15"), {"self": s}, result=bi("map", lam(lambda x: item(x, 1)), call(at(s, "items"))), clause="values() are the second components of the FILTERED items()"),
         W("MetadorGroup.keys", ("C08",), {"self": s}, result=bi("map", lam(lambda x: item(x, 0)), call(at(s, "items"))), clause="keys() are the first components of the FILTERED items()"),
         W("MetadorGroup.__iter__", ("C08",), {"self": s}, result=bi("iter", call(at(s, "keys"))), clause="iteration goes over the filtered keys"),
+        W("MetadorGroup.__reversed__", ("C08",), {"self": s}, result=bi("reversed", bi("list", call(at(s, "keys")))), clause="reverse iteration goes over the filtered keys too (wrapt would otherwise forward reversed() to the raw group, which lists the bookkeeping nodes — defect #27)"),
         W("MetadorGroup.__len__", ("C08",), {"self": s}, result=bi("len", bi("list", call(at(s, "keys")))), clause="the length counts the filtered keys only"),
         W("MetadorNode.meta", ("C15", "C07"), {"self": s}, result=call(Tr(("global", "MetadorMeta")), s), bindings={"MetadorMeta": Tr(("global", "MetadorMeta"))}, clause="the metadata interface is bound to THIS wrapper (with its restrictions), not to the raw node"),
         W("MetadorNode.metador", ("C15", "C07"), {"self": s}, result=call(Tr(("global", "WithDefaultQueryStartNode")), at(at(s, "_self_container"), "metador"), s), bindings={"WithDefaultQueryStartNode": Tr(("global", "WithDefaultQueryStartNode"))}, clause="the container interface reached from a node starts queries at THIS wrapper"),
